@@ -92,6 +92,31 @@ def table_obligations():
     judge("C15.codegen.unary_minus", ["C15", "C16"], "Translator::translate_expr (ExprKind::Unop)", find1(rx), ('0', 'SubInt', '0.0', 'SubFloat'),
           "`-x` compiles to PushInt(0); x; SubInt (0 - x, overflow for MIN as C15 requires) / PushFloat(\"0.0\"); x; SubFloat", "PrefixOp::Minus")
 
+    # C32: every statement and every expression first records its own source position, and emit() stamps
+    # each emitted line with the current position
+    for fn_, arg, oid in (("translate_stmt", "stmt", "C32.codegen.translate_stmt.sets_location"), ("translate_expr", "expr", "C32.codegen.translate_expr.sets_location")):
+        try:
+            ftxt = S.method(TB, r'impl Translator \{', fn_, with_attrs=False)
+            _, body = S.fn_parts(ftxt)
+            first = norm(body)[:120]
+            want = "self.update_current_file_and_lineno(st,%s.node());match&*%s.kind{" % (arg, arg)
+            if first.startswith(want):
+                ob(oid, ["C32"], "Translator::" + fn_, TB, sha_tb, E.DISCHARGED, "", "the first statement of %s is update_current_file_and_lineno(st, %s.node()), before anything is emitted" % (fn_, arg))
+            elif "update_current_file_and_lineno" in norm(body)[:400]:
+                ob(oid, ["C32"], "Translator::" + fn_, TB, sha_tb, E.UNDECIDED, "position update present but not in the expected place: " + first[:100], "first statement of %s records the node's position" % fn_)
+            else:
+                ob(oid, ["C32"], "Translator::" + fn_, TB, sha_tb, E.FAILED, "%s no longer records the node's source position before emitting: body starts `%s`" % (fn_, first[:100]),
+                   "the first statement of %s is update_current_file_and_lineno(st, %s.node())" % (fn_, arg))
+        except S.SliceError as ex:
+            ob(oid, ["C32"], "Translator::" + fn_, TB, sha_tb, E.UNDECIDED, str(ex), "first statement of %s records the node's position" % fn_)
+    try:
+        utxt = norm(S.method(TB, r'impl Translator \{', 'update_current_file_and_lineno', with_attrs=False))
+        good = ("letlocation=node.location();" in utxt and "line_number_for_index(location.lo)" in utxt and "st.curr_file=file_id;" in utxt and "st.curr_lineno=line_no;" in utxt)
+        ob("C32.codegen.update_location.post", ["C32"], "Translator::update_current_file_and_lineno", TB, sha_tb, E.DISCHARGED if good else E.UNDECIDED,
+           "" if good else "shape changed", "update_current_file_and_lineno sets st.curr_file / st.curr_lineno from the node's own location (line_number_for_index(location.lo))")
+    except S.SliceError as ex:
+        ob("C32.codegen.update_location.post", ["C32"], "Translator::update_current_file_and_lineno", TB, sha_tb, E.UNDECIDED, str(ex), "")
+
     # assembly: every three-register / two-register opcode maps to the VM opcode of the same name with operands in order
     i = asm.find('fn instr_to_vminstr')
     body = norm(asm[i:]) if i >= 0 else ""
@@ -142,9 +167,28 @@ def _fits(x):
     return -(1 << 63) <= x < (1 << 63)
 
 
+def replay_c32(ob):
+    """Runtime errors raised by different statement forms must be reported on their own line."""
+    progs = [
+        ("fn f(n: int) -> int {\n  var acc = 1\n  println(\"a\")\n  acc *= n\n  acc\n}\nf(9223372036854775807)\nvar z = 3\nprintln(\"b\")\nz *= 9223372036854775807\n", ":10 "),
+        ("var x = 7\nprintln(\"a\")\nx /= 0\n", ":3 "),
+        ("let a = [1]\nprintln(\"a\")\nlet b = a[5]\n", ":3 "),
+        ("let a = 1\nprintln(\"a\")\nlet b = a / 0\n", ":3 "),
+    ]
+    for prog, want in progs:
+        out, err, rc = abra_cli.run_program(prog)
+        tb = (out + err).split("[traceback]")[-1].strip().split("\n")[0] if "[traceback]" in (out + err) else (out + err)[-200:]
+        if want not in tb + " ":
+            ob.cex = dict(program=prog)
+            return True, dict(program=prog, first_traceback_line=tb, expected_location="main.abra" + want.strip())
+    return None, dict(note="all %d error programs report the failing statement's own line" % len(progs))
+
+
 def replay(ob):
     """Run every arithmetic operator, binary and compound, on int and float operands on the real
     CLI and compare with exact arithmetic; report the first disagreement."""
+    if ob.id.startswith("C32."):
+        return replay_c32(ob)
     cases = [(7, 3), (-7, 3), (7, -3), (2, 10), (0, 5), (9, 2)]
     lines, want = [], []
     for a, b in cases:
